@@ -410,7 +410,8 @@ def tabulate_decision(cls, test, width, want, Evaluator, Unsupported, model=None
 def strict_decoding(ctx, report):
     """bytes from the wire that become a name looked up in a table (or a value kept in the object) are decoded with the strict
     error handler: 'ignore' / 'replace' silently map an unregistered byte sequence onto a registered name (b'h2\xff' -> h2).
-    Lenient decoding is accepted only inside an exception handler (building the message of the error being reported)."""
+    Lenient decoding is accepted only inside an exception handler or a raise statement (building the message of the error
+    being reported)."""
     import ast
     model = ctx.model
     report.rule('C10.R7', 'no lenient (ignore / replace) decoding of wire bytes outside error reporting')
@@ -438,8 +439,8 @@ def strict_decoding(ctx, report):
             in_handler = False
             while id(p) in parents:
                 p = parents[id(p)]
-                if isinstance(p, ast.ExceptHandler):
-                    in_handler = True
+                if isinstance(p, (ast.ExceptHandler, ast.Raise)):
+                    in_handler = True       # building the message of the error being raised
             if not in_handler:
                 report.add('C10.R7', '%s@decode[%s]' % (f.construct, lenient[0].value),
                            '%s decodes wire bytes with the %r error handler: undecodable bytes are dropped / replaced before the value is looked up or '
